@@ -228,6 +228,54 @@ def check_table(sk, lang, tier, found, stats):
     stats['types'] = stats.get('types', 0) + len(ground) + len(VARS)
 
 
+# Ground truth for the built-in (boxed) types of each language, from the language specifications --
+# NOT read from /repo (the class tables above take the builtin edges from the objects' supertypes
+# lists, which would make a corrupted builtin hierarchy invisible).  Scala's Number is
+# java.lang.Number: the numeric value types are not below it.
+_NUM = ['Byte', 'Short', 'Long', 'Float', 'Double']
+BUILTIN_TRUTH = {
+    'kotlin': {'top': 'Any', 'below_number': ['Int'] + _NUM, 'number': 'Number',
+               'other': ['Boolean', 'Char', 'String', 'Unit']},
+    'java': {'top': 'Object', 'below_number': ['Integer'] + _NUM, 'number': 'Number',
+             'other': ['Boolean', 'Character', 'String', 'void']},
+    'groovy': {'top': 'Object', 'below_number': ['Integer'] + _NUM + ['BigDecimal', 'BigInteger'], 'number': 'Number',
+               'other': ['Boolean', 'Character', 'String', 'void']},
+    'scala': {'top': 'Any', 'below_number': [], 'number': 'Number',
+              'other': ['Int'] + _NUM + ['Boolean', 'Char', 'String', 'Unit']},
+}
+
+
+def check_builtins(lang, found, stats):
+    from src.ir import BUILTIN_FACTORIES
+    f = BUILTIN_FACTORIES[lang]
+    truth = BUILTIN_TRUTH[lang]
+    known = set([truth['top'], truth['number']] + truth['below_number'] + truth['other'])
+    ts = []
+    for t in list(f.get_non_nothing_types()) + [f.get_void_type()]:
+        if t.is_type_constructor() or getattr(t, 'primitive', False):
+            continue
+        if t.name in known and t.name not in [x.name for x in ts]:
+            ts.append(t)
+
+    def expected(s, t):
+        if s == t or t == truth['top']:
+            return True
+        return t == truth['number'] and s in truth['below_number']
+    sk = universe.Skeleton([], 'builtin types of ' + lang)
+    for a in ts:
+        for b in ts:
+            stats['builtin_pairs'] = stats.get('builtin_pairs', 0) + 1
+            got = bool(a.is_subtype(b))
+            if got != expected(a.name, b.name):
+                rec(found, 'builtin-hierarchy', 'src/ir/%s_types.py' % lang,
+                    '%s <= %s answered %s' % (a.name, b.name, got), sk, lang, ('c', a.name, ()), ('c', b.name, ()),
+                    'language specification says %s' % expected(a.name, b.name))
+    missing = known - {t.name for t in ts}
+    if missing:
+        rec(found, 'builtin-hierarchy', 'src/ir/%s_types.py' % lang, 'builtin types missing: %s' % sorted(missing),
+            sk, lang, ('c', '?', ()), None, '')
+
+
 def rec(found, rule, site, shape, sk, lang, S, T, note):
     key = (rule, site, shape)
     size = (len(rsub.show(S)) + (len(rsub.show(T)) if T is not None else 0))
@@ -253,6 +301,9 @@ def _work(arg):
     import src.ir.ast  # noqa
     sks, _ = universe.skeletons(tier)
     found, stats = {}, {}
+    if idxs and idxs[0] == 0:
+        for l in LANGS:
+            check_builtins(l, found, stats)
     for i in idxs:
         check_table(sks[i], lang, tier, found, stats)
         stats['tables'] = stats.get('tables', 0) + 1
